@@ -33,6 +33,11 @@ type World struct {
 	goodSigs  map[string][][2]string // (signature, reference)
 	raceFirst bool
 	setupLost bool // wallet suites: the set-up payment was admitted but not included
+	// outputs an ordinary wallet never lists: zero-valued plain outputs created beside others, and
+	// outputs paid to another spelling of a wallet's address (owner = the wallet whose address it spells)
+	zeroOuts  []spendable
+	respelled []spendable
+	paidTo    []string // every address string a generated transaction paid to
 }
 
 func pickSettings(r *Rng) *Settings {
@@ -163,6 +168,19 @@ func (w *World) confirmed(n *Node, wl *Wallet) []spendable {
 	return out
 }
 
+// registered: the node's confirmed registry still holds output z (looked up through the validator's own
+// utxos endpoint data: every address the harness ever paid to, including other spellings)
+func (w *World) registered(n *Node, z spendable) bool {
+	for _, a := range w.paidTo {
+		for _, u := range n.Ureg.Utxos(a) {
+			if u.TransactionId() == z.txid && u.OutputIndex() == z.idx {
+				return true
+			}
+		}
+	}
+	return false
+}
+
 // outputs of a list of transactions (last block / pool), stamped at "next" like the pool does
 func (w *World) fresh(txs []*ledger.Transaction) []spendable {
 	var out []spendable
@@ -254,7 +272,10 @@ func (w *World) build(p *txPlan) *ledger.Transaction {
 	jt.Id = canon.ComputeId()
 	tx, err := jt.Real()
 	if err != nil {
-		panic(fmt.Sprintf("harness built an undecodable transaction: %v", err))
+		// the id was computed independently (mirror structs, crypto/sha256) over the content as written:
+		// a decoder that refuses it does not take the hash of what was served (C15), and nothing built
+		// on this transaction can be run
+		panic(fmt.Sprintf("C15 honest-transaction-refused: the repository's decoder refuses a well-formed transaction whose id is the hash of its inputs, outputs and timestamp: %v; transaction as served: %s", err, truncate(string(mustJSON(jt)), 1500)))
 	}
 	return tx
 }
@@ -346,6 +367,42 @@ func (w *World) genTx(n *Node) (*ledger.Transaction, string) {
 			}
 		}
 	}
+	zeroOverpay := false
+	if kind == "valid" && len(w.zeroOuts) > 0 && r.Chance(1, 2) {
+		// an empty output spent after another input of the same owner: worth nothing, consumed all the same.
+		// Look for an owner who has both a registered empty output and something worth spending.
+		for _, z := range w.zeroOuts {
+			if !w.registered(n, z) {
+				continue
+			}
+			for _, c := range w.confirmed(n, z.owner) {
+				if c.value > 4*fee+8 {
+					first, ins, total = c, []spendable{c, z}, c.value
+					if w.mode != "honest" && r.Chance(1, 2) {
+						zeroOverpay = true // pays out one and a half times what the first input is worth
+						kind = "zero-late-overpay"
+					}
+					w.stats.Count("tx/zero-valued output spent at a later input position" + map[bool]string{true: ", paying out more than the inputs", false: ""}[zeroOverpay])
+					break
+				}
+			}
+			if len(ins) == 2 && ins[1] == z {
+				break
+			}
+		}
+	}
+	respellSpend := false
+	if w.mode != "honest" && len(w.respelled) > 0 && r.Chance(1, 3) {
+		// an output paid to another spelling of a wallet's address is not that wallet's: its key must be refused
+		for _, k := range r.Perm(len(w.respelled)) {
+			z := w.respelled[k]
+			if w.registered(n, z) {
+				first, ins, total, kind, respellSpend = z, []spendable{z}, z.value, "respelled-owner", true
+				w.stats.Count("tx/spend of an output paid to another spelling of the signer's address")
+				break
+			}
+		}
+	}
 	p := &txPlan{ins: ins, ts: ts}
 	amount := uint64(0)
 	if total > fee {
@@ -381,6 +438,33 @@ func (w *World) genTx(n *Node) (*ledger.Transaction, string) {
 		// inputs are consumed all the same)
 		p.outs = []*JOutput{{rcpt.Addr, false, 0}}
 		w.stats.Count("tx/fee-only (single zero-valued output)")
+	}
+	respellAt := -1
+	if kind == "valid" && len(p.outs) > 0 && !p.outs[0].IsYielding && p.outs[0].Value > 4*fee+8 && r.Chance(1, 8) {
+		// the recipient written in another spelling of the same 20 bytes: lower case, upper case, no prefix,
+		// left-padded to 32 bytes. A different string: a different owner (nobody's, in fact)
+		a := rcpt.Addr
+		switch r.Intn(4) {
+		case 0:
+			a = strings.ToLower(a)
+		case 1:
+			a = "0x" + strings.ToUpper(a[2:])
+		case 2:
+			a = a[2:]
+		case 3:
+			a = "0x000000000000000000000000" + a[2:]
+		}
+		if a != rcpt.Addr {
+			p.outs[0].Address = a
+			respellAt = 0
+			w.stats.Count("tx/recipient in another spelling of a wallet address")
+		}
+	}
+	if respellSpend {
+		p.outs = []*JOutput{{rcpt.Addr, false, total / 2}}
+	}
+	if zeroOverpay {
+		p.outs = []*JOutput{{rcpt.Addr, false, total + total/2 - fee}}
 	}
 	switch kind {
 	case "low-fee":
@@ -437,7 +521,29 @@ func (w *World) genTx(n *Node) (*ledger.Transaction, string) {
 	case "zero-out":
 		p.outs = []*JOutput{{rcpt.Addr, false, 0}}
 	}
-	return w.build(p), src + "/" + kind
+	tx := w.build(p)
+	for _, o := range p.outs {
+		known := false
+		for _, a := range w.paidTo {
+			known = known || a == o.Address
+		}
+		if !known && len(w.paidTo) < 64 {
+			w.paidTo = append(w.paidTo, o.Address)
+		}
+	}
+	if kind == "valid" {
+		for k, o := range p.outs {
+			if o.Value == 0 && !o.IsYielding && len(p.outs) > 1 {
+				if wl := w.walletOf(o.Address); wl != nil && len(w.zeroOuts) < 16 {
+					w.zeroOuts = append(w.zeroOuts, spendable{tx.Id(), uint16(k), 0, wl})
+				}
+			}
+		}
+		if respellAt >= 0 && len(w.respelled) < 16 {
+			w.respelled = append(w.respelled, spendable{tx.Id(), uint16(respellAt), p.outs[respellAt].Value, rcpt})
+		}
+	}
+	return tx, src + "/" + kind
 }
 
 func indexOf(ws []*Wallet, w *Wallet) int {
@@ -524,6 +630,25 @@ func (w *World) mutateChain(blocks []*JBlock, forced ...string) ([]*JBlock, stri
 			if found {
 				j = jj
 				break
+			}
+		}
+	}
+	if kind == "tx-late" || kind == "tx-early" {
+		// needs an ordinary transaction; two times in three one below the tip (a block older than the
+		// verifier's clock: what is compared with the transaction's date must be its block, not "now")
+		var with []int
+		for jj := 1; jj < len(bs); jj++ {
+			for _, t := range bs[jj].Transactions {
+				if len(t.Inputs) != 0 {
+					with = append(with, jj)
+					break
+				}
+			}
+		}
+		if len(with) > 0 {
+			j = with[r.Intn(len(with))]
+			if len(with) > 1 && j == len(bs)-1 && r.Chance(2, 3) {
+				j = with[r.Intn(len(with)-1)]
 			}
 		}
 	}
@@ -844,6 +969,14 @@ func (w *World) run(steps int) {
 			w.yieldRace()
 		case k < 94 && w.mode != "honest": // a neighbor pays income to an address the chain has removed
 			w.removedYield()
+		case k < 96 && w.mode != "honest": // outputs no wallet lists: another spelling of an address; an empty output beside a full one
+			if r.Chance(1, 2) {
+				w.respellScenario()
+			} else {
+				w.zeroLateScenario()
+			}
+		case k < 98: // the node and a neighbor part ways for one, two or three blocks, then the node re-syncs
+			w.forkDepthScenario()
 		default: // registry refresh
 			ans := map[string]int{}
 			for _, wl := range w.wallets {
@@ -1220,6 +1353,143 @@ func (w *World) removedYield() {
 	mut, kind := w.mutateChain(MirrorBlocks(h.AllBlocks()), "yield-removed")
 	res := w.rec.Update(w.now, []*Peer{staticPeer("10.7.7.7:10600", mut, w.set.Limit)})
 	w.stats.Count(fmt.Sprintf("removed-yield=%s/%s", kind[:indexOrLen(kind, '@')], res[:indexOrLen(res, ':')]))
+}
+
+// bigConfirmed: a confirmed output of some wallet worth spending in two steps
+func (w *World) bigConfirmed() *spendable {
+	busy := w.busyRefs(w.host)
+	for _, k := range w.r.Perm(len(w.wallets)) {
+		for _, u := range w.confirmed(w.host, w.wallets[k]) {
+			if u.value > 20*w.set.Fee+64 && !busy[fmt.Sprintf("%s/%d", u.txid, u.idx)] {
+				c := u
+				return &c
+			}
+		}
+	}
+	return nil
+}
+
+// respellScenario: a payment to another spelling of wallet Y's address (the same 20 bytes in lower case,
+// upper case, without prefix or left-padded) gets confirmed; Y's key then tries to spend it. The recipient
+// of an output is a string: Y's address is another string, so Y's key is not the owner's.
+func (w *World) respellScenario() {
+	u := w.bigConfirmed()
+	if u == nil || len(w.host.AllBlocks()) < 2 {
+		w.stats.Count("respell=nothing to spend")
+		return
+	}
+	y := w.wallets[w.r.Intn(len(w.wallets))]
+	a := []string{strings.ToLower(y.Addr), "0x" + strings.ToUpper(y.Addr[2:]), y.Addr[2:], "0x000000000000000000000000" + y.Addr[2:]}[w.r.Intn(4)]
+	if a == y.Addr {
+		a = y.Addr[2:]
+	}
+	half := (u.value - w.set.Fee) / 2
+	tx1 := w.build(&txPlan{ins: []spendable{*u}, outs: []*JOutput{{a, false, half}, {u.owner.Addr, false, u.value - w.set.Fee - half - 1}}, ts: w.now})
+	r1 := w.rec.Admit(tx1)
+	w.tickAll()
+	w.rec.Validate(w.now)
+	w.tickAll()
+	w.rec.Validate(w.now)
+	got := false
+	for _, x := range w.host.Ureg.Utxos(a) {
+		got = got || x.TransactionId() == tx1.Id()
+	}
+	if !got {
+		w.stats.Count("respell=payment not confirmed (" + r1[:indexOrLen(r1, ':')] + ")")
+		return
+	}
+	v := w.host.Ureg.Utxos(a)[0].Value(w.next(), w.set.HalfLife, w.set.Base, w.set.ILimit)
+	tx2 := w.build(&txPlan{ins: []spendable{{tx1.Id(), 0, v, y}}, outs: []*JOutput{{y.Addr, false, v / 2}}, ts: w.now})
+	r2 := w.rec.Admit(tx2)
+	w.tickAll()
+	w.rec.Validate(w.now)
+	w.stats.Count("respell=spend by the respelled wallet's key: " + r2[:indexOrLen(r2, ':')])
+}
+
+// zeroLateScenario: a transaction creates an empty plain output beside a full one (both to X); X then spends
+// the full one and, after it, the empty one, paying out one and a half times what the full one is worth.
+func (w *World) zeroLateScenario() {
+	u := w.bigConfirmed()
+	if u == nil || len(w.host.AllBlocks()) < 2 {
+		w.stats.Count("zero-late=nothing to spend")
+		return
+	}
+	x := u.owner
+	half := (u.value - w.set.Fee) / 2
+	tx1 := w.build(&txPlan{ins: []spendable{*u}, outs: []*JOutput{{x.Addr, false, 0}, {x.Addr, false, half}, {w.wallets[w.r.Intn(len(w.wallets))].Addr, false, u.value - w.set.Fee - half - 1}}, ts: w.now})
+	w.rec.Admit(tx1)
+	w.tickAll()
+	w.rec.Validate(w.now)
+	w.tickAll()
+	w.rec.Validate(w.now)
+	var full *spendable
+	for _, c := range w.confirmed(w.host, x) {
+		if c.txid == tx1.Id() && c.idx == 1 {
+			cc := c
+			full = &cc
+		}
+	}
+	if full == nil || full.value <= 2*w.set.Fee {
+		w.stats.Count("zero-late=payment not confirmed")
+		return
+	}
+	pay := full.value + full.value/2 - w.set.Fee
+	if w.r.Chance(1, 4) {
+		pay = full.value - w.set.Fee // the honest variant: the empty input adds nothing and is consumed
+	}
+	tx2 := w.build(&txPlan{ins: []spendable{*full, {tx1.Id(), 0, 0, x}}, outs: []*JOutput{{w.wallets[2].Addr, false, pay}}, ts: w.now})
+	r2 := w.rec.Admit(tx2)
+	w.tickAll()
+	w.rec.Validate(w.now)
+	w.stats.Count(fmt.Sprintf("zero-late=overpay %v: %s", pay > full.value, r2[:indexOrLen(r2, ':')]))
+}
+
+// forkDepthScenario: the host and a neighbor hold the same chain, then each produces on its own - the host
+// d blocks (the first with a payment that registers an address), the neighbor d+1 - and the host re-syncs
+// onto the neighbor's chain. Whatever the depth of the fork, the host's outputs and registered addresses
+// must afterwards be the replay of the adopted chain (nothing of the abandoned blocks may stay).
+func (w *World) forkDepthScenario() {
+	host := w.host
+	h := NewNode(w.set, w.helpers[0].Validator)
+	h.Humans.answer = host.Humans.answer
+	if len(host.AllBlocks()) < 2 {
+		w.stats.Count("fork-depth=host too short")
+		return
+	}
+	h.Pool.Validate(host.Chain.FirstBlockTimestamp())
+	helperSync(h, w.now, []*Peer{honestPeer("10.0.0.1:10600", host)})
+	hb, nb := host.AllBlocks(), h.AllBlocks()
+	if len(hb) != len(nb) || blockHashHex(hb[len(hb)-1]) != blockHashHex(nb[len(nb)-1]) {
+		w.stats.Count("fork-depth=not in sync")
+		return
+	}
+	d := w.r.Pick(1, 2, 2, 2, 3)
+	paid := "none"
+	if u := w.bigConfirmed(); u != nil {
+		half := (u.value - w.set.Fee) / 2
+		var target *Wallet
+		for _, wl := range w.wallets {
+			if !host.Areg.IsRegistered(wl.Addr) && wl != u.owner {
+				target = wl
+			}
+		}
+		yielding := target != nil
+		if target == nil {
+			target = w.wallets[2]
+		}
+		tx := w.build(&txPlan{ins: []spendable{*u}, outs: []*JOutput{{target.Addr, yielding, half}, {u.owner.Addr, false, u.value - w.set.Fee - half - 1}}, ts: w.now})
+		paid = w.rec.Admit(tx)
+	}
+	for k := 0; k < d; k++ {
+		w.tickAll()
+		w.rec.Validate(w.now)
+		h.Pool.Validate(w.now)
+	}
+	w.tickAll()
+	h.Pool.Validate(w.now)
+	h.Log.Take()
+	res := w.rec.Update(w.now, []*Peer{honestPeer("10.6.6.6:10600", h)})
+	w.stats.Count(fmt.Sprintf("fork-depth=%d payment %s: %s", d, paid[:indexOrLen(paid, ':')], res[:indexOrLen(res, ':')]))
 }
 
 func (w *World) yieldRace() {
